@@ -2084,9 +2084,8 @@ func marshalTuple(info TypeInfo, value interface{}) ([]byte, error) {
 				return nil, err
 			}
 
-			n := len(data)
-			buf = appendInt(buf, int32(n))
-			buf = append(buf, data...)
+			// a null element (e.g. a nil slice or map) is length -1, not an empty value
+			buf = appendBytes(buf, data)
 		}
 
 		return buf, nil
@@ -2110,9 +2109,8 @@ func marshalTuple(info TypeInfo, value interface{}) ([]byte, error) {
 				return nil, err
 			}
 
-			n := len(data)
-			buf = appendInt(buf, int32(n))
-			buf = append(buf, data...)
+			// a null element (e.g. a nil slice or map) is length -1, not an empty value
+			buf = appendBytes(buf, data)
 		}
 
 		return buf, nil
